@@ -70,14 +70,27 @@ def must_pass_store(fn, stores, ret_blocks):
 def nonnull_return_blocks(fn):
     """blocks from which a non-null pointer is returned (clang merges returns through a phi)"""
     out = []
+    def walk(v, blk, depth=0):
+        # the returned value may pass several merges and casts on its way (`desc = NULL` on the failure arm of a single exit)
+        d = fn.defs.get(v)
+        while d is not None and d.op == 'bitcast':
+            v = d.ops[0]
+            d = fn.defs.get(v)
+        if v == 'null':
+            return
+        if d is not None and d.op == 'phi' and depth < 6 and all(i.op in ('phi', 'bitcast', 'br', 'ret') for i in d.bb.insts):
+            for v2, l in d.incoming:
+                walk(v2, fn.blocks[l], depth + 1)
+        elif d is not None and d.op == 'phi' and d.bb is blk and depth == 0:
+            for v2, l in d.incoming:
+                if v2 != 'null':
+                    out.append(fn.blocks[l])
+        else:
+            out.append(blk)
     for b in fn.order:
         t = b.insts[-1]
         if t.op == 'ret' and t.ops:
-            d = fn.defs.get(t.ops[0])
-            if d is not None and d.op == 'phi' and d.bb is b:
-                out += [fn.blocks[l] for v, l in d.incoming if v != 'null']
-            elif t.ops[0] != 'null':
-                out.append(b)
+            walk(t.ops[0], b)
     return out
 
 # ---------------------------------------------------------------- R03a / R13c
@@ -296,6 +309,10 @@ def rule_isal_w(ctx, P, r):
             continue
         tr = [(a, b_, c) for a, b_, c, _, _ in p.truths()]
         mult8 = any(pr == 'eq' and {a, b_} in ({f'({V} srem 8)', '0'}, {f'({V} urem 8)', '0'}, {f'({V} and 7)', '0'}, {f'(7 and {V})', '0'}) for pr, a, b_ in tr)
+        # `switch (w) { case 8: case 16: ...` : on this path the value is one of the listed constants
+        pinned = [int(b_) for pr, a, b_ in tr if pr == 'eq' and a == V and INT.match(b_)]
+        if pinned and all(c_ >= 8 and c_ % 8 == 0 for c_ in pinned):
+            continue
         lo = None
         for pr, a, b_ in tr:
             cand = None
@@ -305,6 +322,28 @@ def rule_isal_w(ctx, P, r):
                 cand = {'slt': int(a) + 1, 'sle': int(a), 'eq': int(a)}.get(pr)
             if cand is not None:
                 lo = cand if lo is None else max(lo, cand)
+        if not mult8 or lo is None or lo < 1:
+            # whatever the guard is written as (a switch over the legal widths ends up as a rotated range test): which values of w
+            # satisfy the path's conditions on w alone?  they must all be positive multiples of 8
+            cond_w = [(pr, a, b_) for pr, a, b_ in tr if V in a + b_ and not re.search(r'[*@]', (a + b_).replace(V, 'W'))]
+            ok_grid = []
+            decided = bool(cond_w)
+            for wv in list(range(-9, 80)) + [128, 255, 256, 1 << 16, (1 << 31) - 8]:
+                holds = True
+                for pr, a, b_ in cond_w:
+                    x, y = canon_eval(a, {V: wv}), canon_eval(b_, {V: wv})
+                    if x is None or y is None:
+                        decided = False
+                        break
+                    if not _cmp_holds(pr, x, y):
+                        holds = False
+                        break
+                if not decided:
+                    break
+                if holds:
+                    ok_grid.append(wv)
+            if decided and ok_grid and all(wv >= 8 and wv % 8 == 0 for wv in ok_grid):
+                continue
         if not mult8:
             problems.append('no guard w % 8 == 0 on a path that keeps the caller value')
         if lo is None or lo < 1:
@@ -1190,7 +1229,22 @@ def _refusal_operand_ok(e):
     if e.startswith('@') or e.startswith('(*'):
         return True                     # a callee's result
     rest = _INST_KM.sub('K', e)
-    return '*' not in rest and '@' not in rest
+    # results of callees may take part in the arithmetic (a count kept as the distance a write cursor moved from the allocation)
+    out, i = '', 0
+    while i < len(rest):
+        m = re.match(r'@[\w.$]+\(', rest[i:])
+        if m:
+            depth, j = 1, i + m.end()
+            while j < len(rest) and depth:
+                depth += rest[j] == '('
+                depth -= rest[j] == ')'
+                j += 1
+            out += 'CALL'
+            i = j
+        else:
+            out += rest[i]
+            i += 1
+    return '*' not in out and '@' not in out
 
 def rule_refusal_inventory(ctx, P, r, fnames, policy=None, what=None):
     """every branch of a front-end operation that leads only to negative returns tests nothing but: arguments, k / m of the
@@ -1251,3 +1305,58 @@ def rule_refusal_inventory(ctx, P, r, fnames, policy=None, what=None):
                 r.ok(inst, func=f.name, loc=t.loc)
         if not n:
             r.undecided(f'{fname}: refusals', loc=f.mod.src, msg='no branch that leads only to negative returns was found')
+
+
+# ---------------------------------------------------------------- evaluation of canonical expressions (vflow.Canon syntax) on numbers
+def _cmp_holds(pr, x, y, w=32):
+    if pr[0] == 'u':
+        x &= (1 << w) - 1; y &= (1 << w) - 1
+    return {'eq': x == y, 'ne': x != y, 'slt': x < y, 'sle': x <= y, 'sgt': x > y, 'sge': x >= y, 'ult': x < y, 'ule': x <= y, 'ugt': x > y, 'uge': x >= y}[pr]
+
+def canon_eval(e, env, w=32):
+    """value of a canonical expression such as `(((V sub 8) lshr 3) or ((V sub 8) shl 29))` with the atoms in env replaced by
+    numbers (two's complement of width w); None when it mentions anything else"""
+    e = e.strip()
+    for k_, v_ in env.items():
+        if e == k_:
+            return v_
+    if re.match(r'^-?\d+$', e):
+        return int(e)
+    m = re.match(r'^(sext|zext|trunc)\.i(\d+)\((.*)\)$', e)
+    if m:
+        x = canon_eval(m.group(3), env, w)
+        if x is None:
+            return None
+        nb = int(m.group(2))
+        if m.group(1) == 'zext':
+            return x & ((1 << w) - 1)
+        if m.group(1) == 'trunc':
+            x &= (1 << nb) - 1
+            return x - (1 << nb) if x >> (nb - 1) else x
+        return x
+    if e.startswith('(') and e.endswith(')'):
+        body, depth = e[1:-1], 0
+        for i, ch in enumerate(body):
+            depth += ch == '('
+            depth -= ch == ')'
+            if depth == 0 and ch == ' ':
+                m2 = re.match(r'^ (add|sub|mul|and|or|xor|shl|lshr|ashr|srem|urem|sdiv|udiv) ', body[i:])
+                if m2:
+                    a, b = canon_eval(body[:i], env, w), canon_eval(body[i + m2.end():], env, w)
+                    if a is None or b is None:
+                        return None
+                    op = m2.group(1)
+                    M = (1 << w) - 1
+                    ua, ub = a & M, b & M
+                    try:
+                        r_ = {'add': a + b, 'sub': a - b, 'mul': a * b, 'and': ua & ub, 'or': ua | ub, 'xor': ua ^ ub,
+                              'shl': ua << (ub % w), 'lshr': ua >> (ub % w), 'ashr': a >> (ub % w),
+                              'srem': (abs(a) % abs(b)) * (1 if a >= 0 else -1) if b else None, 'urem': ua % ub if ub else None,
+                              'sdiv': (abs(a) // abs(b)) * (1 if (a >= 0) == (b >= 0) else -1) if b else None, 'udiv': ua // ub if ub else None}[op]
+                    except (ValueError, ZeroDivisionError):
+                        return None
+                    if r_ is None:
+                        return None
+                    r_ &= M
+                    return r_ - (1 << w) if r_ >> (w - 1) else r_
+    return None
